@@ -1,2 +1,3 @@
 pub mod ops;
 pub mod machine;
+pub mod consteval;
